@@ -9,6 +9,7 @@
  *   cf sort <flags> <loc> <hex>...      gp_str_sort of an array of heap strings
  *   cf rep <n> <one of the above>       the same call n times (fresh copy of the input each time)
  *   cf [rep <n>] pre <bytes> <call>     the caller first takes <bytes> from the scratch arena itself
+ *   cf stale <hex> up|lo|cap ..         <hex> is written behind the end of the string, inside its capacity
  * loc: "-" = "", otherwise the locale code.   flags: letters f (fold) c (collate) r (reverse), "-" = none.
  *
  * output:  <result> d=<scratch position changed? 0/1> m:<sizes requested from the heap by the call(s)> f:<frees>
@@ -24,6 +25,16 @@
 #include "track_heap.h"
 
 static char** T; static int NT;
+/* "stale <hex>": bytes left behind the end of the string (inside its capacity), as gp_str_slice or a shorter
+ * gp_str_copy into a used buffer leave them; they are not part of the string */
+static uint8_t* stale; static size_t stale_len;
+static void put_stale(GPString* s)
+{
+    if (!stale_len) return;
+    size_t l = gp_str_length(*s);
+    gp_str_reserve(s, l + stale_len + 1);
+    memcpy((char*)*s + l, stale, stale_len);
+}
 
 /* the harness' own strings and arrays come from this allocator, so that gp_heap's log shows only what the
  * library itself requests (scratch arena nodes); its request sizes are logged separately */
@@ -49,6 +60,7 @@ static int one_call(char** t, int n, int print)
     if (n >= 4 && (!strcmp(t[0], "up") || !strcmp(t[0], "lo") || !strcmp(t[0], "cap"))) {
         size_t cap = strtoull(t[2], NULL, 10), l; uint8_t* b = vp_hex(t[3], &l);
         GPString s = gp_str_new(SA, cap, ""); gp_str_copy(&s, b, l); free(b);
+        put_stale(&s);
         sa_n = 0;                                            /* string requests made by the call itself */
         if (t[0][0] == 'u') gp_str_to_upper_full(&s, loc(t[1]));
         else if (t[0][0] == 'l') gp_str_to_lower_full(&s, loc(t[1]));
@@ -116,6 +128,8 @@ static void* run_line(void* arg)
     if (n >= 2 && !strcmp(t[0], "rep")) { reps = strtoul(t[1], NULL, 10); t += 2; n -= 2; }
     /* "pre <bytes>": the caller holds a scratch allocation of its own when the call is made (the scratch position
      * is then somewhere inside, or exactly at the end of, a node) */
+    stale_len = 0;
+    if (n >= 2 && !strcmp(t[0], "stale")) { stale = vp_hex(t[1], &stale_len); t += 2; n -= 2; }
     if (n >= 2 && !strcmp(t[0], "pre")) { (void)gp_mem_alloc((GPAllocator*)gp_scratch_arena(), strtoull(t[1], NULL, 10)); t += 2; n -= 2; }
     void* before = gp_mem_alloc((GPAllocator*)gp_scratch_arena(), 0);   /* creates the arena; position at entry */
     size_t mark = th_count, frees0 = th_frees;
